@@ -2124,7 +2124,10 @@ def _put_slice_ClassDef_bases(
     _validate_put_seq(self, fst_, 'ClassDef.bases')
 
     if keywords := ast.keywords:
-        if body and keywords[0].f.loc[:2] < body[stop - 1 if stop else 0].f.loc[2:]:  # if stop == 0 then insertion is before first element which must not be after first keyword either
+        if body and (
+            keywords[0].f.loc[:2] < body[stop - 1 if stop else 0].f.loc[2:]  # if stop == 0 then insertion is before first element which must not be after first keyword either
+            or (start == stop < len_body and keywords[0].f.loc[:2] < body[stop].f.loc[:2])  # pure insertion goes directly before the following element which must not be after first keyword either
+        ):
             raise NodeError("cannot put to ClassDef.bases slice because it follows keywords, try the '_bases' field")
 
     bound_ln, bound_col, bound_end_ln, bound_end_col = bases_pars = self._loc_ClassDef_bases_pars()
@@ -2830,7 +2833,10 @@ def _put_slice_Call_args(
     _validate_put_seq(self, fst_, 'Call.args')
 
     if keywords := ast.keywords:
-        if body and keywords[0].f.loc[:2] < body[stop - 1 if stop else 0].f.loc[2:]:  # if stop == 0 then insertion is before first element which must not be after first keyword either
+        if body and (
+            keywords[0].f.loc[:2] < body[stop - 1 if stop else 0].f.loc[2:]  # if stop == 0 then insertion is before first element which must not be after first keyword either
+            or (start == stop < len_body and keywords[0].f.loc[:2] < body[stop].f.loc[:2])  # pure insertion goes directly before the following element which must not be after first keyword either
+        ):
             raise NodeError("cannot put to Call.args slice because it follows keywords, try the '_args' field")
 
     else:
